@@ -6,6 +6,7 @@ package main
 import (
 	"fmt"
 	"go/ast"
+	"go/constant"
 	"go/token"
 	"go/types"
 	"regexp"
@@ -1486,4 +1487,334 @@ func ruleGetTwins(prog *Program, rep *Report) {
 		}
 	}
 	rep.Violate(Finding{Rule: "S-gettwin", Key: "asm.get=getall", Pos: prog.Pos(pos["get"]), Msg: fmt.Sprintf("asm.get and asm.getall no longer choose their data alike: first difference at `%s`; only in get %v, only in getall %v", first, a, b)})
+}
+
+// ---------------------------------------------------------------- K-fallbacktwin
+
+// A function that starts by handing all its parameters, unchanged, to another function of the same signature
+// under some condition (`if !rv.CanAddr() { return reflectEmbed(rv, val, opt) }`) has a variant of itself for
+// that case. The two are written as copies: the statements they share must come in the same order in both,
+// and the statements only one of them has must be the ones that were read and listed here.
+var fallbackTwinAccepted = map[string][2]string{
+	"alt.reflectStruct=reflectEmbed": {
+		"addr := rv.UnsafeAddr() | if v, fv, omit := fi.value(fi, rv, addr); !omit // if v, fv, omit := fi.ivalue(fi, rv, 0); !omit",
+		"the addressable variant reads fields through their offsets from the struct's address, the other through reflection; everything else (create key first, promoted fields through nil pointers skipped, nesting, member omission) is the same",
+	},
+}
+
+func ruleFallbackTwins(prog *Program, rep *Report, floor int, rels ...string) {
+	rep.Rules = append(rep.Rules, "K-fallbacktwin: a function whose first statement hands all its parameters unchanged to a function of the same signature (`if c { return G(params...) }`) and that function G share their remaining statements in the same order; statements only one of them has are listed with the reason ("+strings.Join(rels, ", ")+")")
+	n := 0
+	for _, rel := range rels {
+		pk := prog.Pkg(rel)
+		if pk == nil {
+			rep.Errorf("K-fallbacktwin: package %s not loaded", rel)
+			continue
+		}
+		info := pk.TypesInfo
+		decls := map[types.Object]*ast.FuncDecl{}
+		for _, f := range pk.Syntax {
+			for _, d := range f.Decls {
+				if fd, ok := d.(*ast.FuncDecl); ok && fd.Body != nil {
+					decls[info.Defs[fd.Name]] = fd
+				}
+			}
+		}
+		for _, f := range pk.Syntax {
+			for _, d := range f.Decls {
+				fd, ok := d.(*ast.FuncDecl)
+				if !ok || fd.Body == nil || len(fd.Body.List) < 2 || fd.Type.Params == nil {
+					continue
+				}
+				is, ok := fd.Body.List[0].(*ast.IfStmt)
+				if !ok || is.Else != nil || len(is.Body.List) != 1 {
+					continue
+				}
+				ret, ok := is.Body.List[0].(*ast.ReturnStmt)
+				if !ok || len(ret.Results) != 1 {
+					continue
+				}
+				call, ok := ast.Unparen(ret.Results[0]).(*ast.CallExpr)
+				if !ok {
+					continue
+				}
+				var callee types.Object
+				switch fn := call.Fun.(type) {
+				case *ast.Ident:
+					callee = info.Uses[fn]
+				case *ast.SelectorExpr:
+					callee = info.Uses[fn.Sel]
+				}
+				gd := decls[callee]
+				if gd == nil || gd == fd {
+					continue
+				}
+				var params []types.Object
+				for _, p := range fd.Type.Params.List {
+					for _, nm := range p.Names {
+						params = append(params, info.Defs[nm])
+					}
+				}
+				if len(params) == 0 || len(params) != len(call.Args) {
+					continue
+				}
+				same := true
+				for i, a := range call.Args {
+					id, ok := ast.Unparen(a).(*ast.Ident)
+					if !ok || info.Uses[id] != params[i] {
+						same = false
+					}
+				}
+				if !same {
+					continue
+				}
+				n++
+				key := fmt.Sprintf("%s.%s=%s", rel, fd.Name.Name, gd.Name.Name)
+				rest := &ast.FuncDecl{Name: fd.Name, Type: fd.Type, Body: &ast.BlockStmt{List: fd.Body.List[1:]}}
+				a, b := twinBodyLines(rest), twinBodyLines(gd)
+				onlyA, onlyB := diffLines(a, b)
+				inA, inB := map[string]bool{}, map[string]bool{}
+				for _, l := range onlyA {
+					inA[l] = true
+				}
+				for _, l := range onlyB {
+					inB[l] = true
+				}
+				var ca, cb []string
+				for _, l := range a {
+					if !inA[l] {
+						ca = append(ca, l)
+					}
+				}
+				for _, l := range b {
+					if !inB[l] {
+						cb = append(cb, l)
+					}
+				}
+				diffText := strings.Join(onlyA, " | ") + " // " + strings.Join(onlyB, " | ")
+				acc, listed := fallbackTwinAccepted[key]
+				switch {
+				case strings.Join(ca, "\n") != strings.Join(cb, "\n"):
+					first := ""
+					for i := range ca {
+						if i >= len(cb) || ca[i] != cb[i] {
+							first = ca[i]
+							break
+						}
+					}
+					rep.Violate(Finding{Rule: "K-fallbacktwin", Key: key + ":order", Pos: prog.Pos(gd.Pos()), Msg: fmt.Sprintf("%s and its variant %s no longer run their shared statements in the same order (first difference at `%s`)", fd.Name.Name, gd.Name.Name, first)})
+				case len(onlyA)+len(onlyB) == 0:
+					rep.Discharge("K-fallbacktwin", key, prog.Pos(fd.Pos()), fmt.Sprintf("%d statements equal", len(ca)))
+				case listed && acc[0] == diffText:
+					rep.Discharge("K-fallbacktwin", key, prog.Pos(fd.Pos()), fmt.Sprintf("%d shared statements in the same order; accepted difference (read): %s", len(ca), acc[1]))
+				default:
+					rep.Violate(Finding{Rule: "K-fallbacktwin", Key: key, Pos: prog.Pos(gd.Pos()), Msg: fmt.Sprintf("%s and its variant %s differ in statements that were not read: only in %s [%s]; only in %s [%s]", fd.Name.Name, gd.Name.Name, fd.Name.Name, strings.Join(onlyA, " | "), gd.Name.Name, strings.Join(onlyB, " | "))})
+				}
+			}
+		}
+	}
+	rep.Eval(n)
+	if n < floor {
+		rep.Errorf("K-fallbacktwin found %d function pairs (floor %d)", n, floor)
+	}
+}
+
+// ---------------------------------------------------------------- M-arity
+
+// ruleOpArity: the script evaluator removes an operator's operands from the evaluation stack by the count
+// recorded in the operator's table entry (copy(s[i+1:], s[i+count+1:])) while the operator's arm reads one or
+// two operands. The count in the table must be the number of operands the arm reads: a larger count swallows
+// the value that follows the operand (the right operand of the enclosing operator), a smaller one leaves an
+// operand behind.
+func ruleOpArity(prog *Program, rep *Report) {
+	rep.Rules = append(rep.Rules, "M-arity: for every operator of the script evaluator the operand count in its table entry equals the number of operands its arm of the evaluator reads (2 when the arm mentions the right operand, else 1): the count is what the evaluator removes from the stack after the arm")
+	pk := prog.Pkg("jp")
+	if pk == nil {
+		rep.Errorf("M-arity: package jp not loaded")
+		return
+	}
+	info := pk.TypesInfo
+	// the evaluator: a function with a switch whose case expressions are V.f for package-level variables V of one
+	// pointer-to-struct type, and that shifts the stack with copy(..., o.g ...)
+	type armInfo struct {
+		readsRight bool
+		pos        token.Pos
+	}
+	arms := map[types.Object]armInfo{}
+	var cntField *types.Var
+	var evalPos token.Pos
+	for _, f := range pk.Syntax {
+		for _, d := range f.Decls {
+			fd, ok := d.(*ast.FuncDecl)
+			if !ok || fd.Body == nil {
+				continue
+			}
+			ast.Inspect(fd.Body, func(n ast.Node) bool {
+				sw, ok := n.(*ast.SwitchStmt)
+				if !ok || sw.Tag == nil {
+					return true
+				}
+				tagSel, ok := ast.Unparen(sw.Tag).(*ast.SelectorExpr)
+				if !ok {
+					return true
+				}
+				local := map[types.Object]armInfo{}
+				for _, c := range sw.Body.List {
+					cc := c.(*ast.CaseClause)
+					for _, e := range cc.List {
+						sel, ok := ast.Unparen(e).(*ast.SelectorExpr)
+						if !ok || sel.Sel.Name != tagSel.Sel.Name {
+							continue
+						}
+						id, ok := ast.Unparen(sel.X).(*ast.Ident)
+						if !ok {
+							continue
+						}
+						v, ok := info.Uses[id].(*types.Var)
+						if !ok || v.Parent() != pk.Types.Scope() {
+							continue
+						}
+						local[v] = armInfo{pos: cc.Pos()}
+					}
+				}
+				if len(local) < 10 {
+					return true
+				}
+				// the operand variables: the two locals assigned from stack[i+1] and stack[i+2] before the switch
+				var rightObj types.Object
+				ast.Inspect(fd.Body, func(k ast.Node) bool {
+					as, ok := k.(*ast.AssignStmt)
+					if !ok || len(as.Lhs) != 1 || len(as.Rhs) != 1 {
+						return true
+					}
+					ix, ok := ast.Unparen(as.Rhs[0]).(*ast.IndexExpr)
+					if !ok {
+						return true
+					}
+					be, ok := ast.Unparen(ix.Index).(*ast.BinaryExpr)
+					if !ok || be.Op != token.ADD {
+						return true
+					}
+					if tv, ok := info.Types[be.Y]; ok && tv.Value != nil && tv.Value.ExactString() == "2" {
+						if id, ok := as.Lhs[0].(*ast.Ident); ok {
+							rightObj = info.Uses[id]
+						}
+					}
+					return true
+				})
+				if rightObj == nil {
+					return true
+				}
+				for _, c := range sw.Body.List {
+					cc := c.(*ast.CaseClause)
+					reads := false
+					for _, s := range cc.Body {
+						ast.Inspect(s, func(k ast.Node) bool {
+							if id, ok := k.(*ast.Ident); ok && info.Uses[id] == rightObj {
+								reads = true
+							}
+							return true
+						})
+					}
+					for _, e := range cc.List {
+						if sel, ok := ast.Unparen(e).(*ast.SelectorExpr); ok {
+							if id, ok := ast.Unparen(sel.X).(*ast.Ident); ok {
+								if v, ok := info.Uses[id].(*types.Var); ok {
+									if _, in := local[v]; in {
+										arms[v] = armInfo{readsRight: reads, pos: cc.Pos()}
+									}
+								}
+							}
+						}
+					}
+				}
+				evalPos = fd.Pos()
+				// the count field: a field of the tag's base read inside a copy(...) call of this function
+				ast.Inspect(fd.Body, func(k ast.Node) bool {
+					call, ok := k.(*ast.CallExpr)
+					if !ok {
+						return true
+					}
+					if id, ok := call.Fun.(*ast.Ident); !ok || id.Name != "copy" {
+						return true
+					}
+					ast.Inspect(call, func(m ast.Node) bool {
+						if sel, ok := m.(*ast.SelectorExpr); ok && types.ExprString(sel.X) == types.ExprString(tagSel.X) {
+							if fv, ok := info.Uses[sel.Sel].(*types.Var); ok && fv.IsField() {
+								cntField = fv
+							}
+						}
+						return true
+					})
+					return true
+				})
+				return false
+			})
+		}
+	}
+	if len(arms) < 10 || cntField == nil {
+		rep.Errorf("M-arity: evaluator switch or operand-count field not found (%d arms)", len(arms))
+		return
+	}
+	// the table entries: package-level V = &T{... cnt: N ...}
+	n := 0
+	for _, f := range pk.Syntax {
+		for _, d := range f.Decls {
+			gd, ok := d.(*ast.GenDecl)
+			if !ok || gd.Tok != token.VAR {
+				continue
+			}
+			for _, sp := range gd.Specs {
+				vs := sp.(*ast.ValueSpec)
+				for i, nm := range vs.Names {
+					if i >= len(vs.Values) {
+						continue
+					}
+					v := info.Defs[nm]
+					arm, has := arms[v]
+					if !has {
+						continue
+					}
+					var cl *ast.CompositeLit
+					switch x := ast.Unparen(vs.Values[i]).(type) {
+					case *ast.UnaryExpr:
+						cl, _ = x.X.(*ast.CompositeLit)
+					case *ast.CompositeLit:
+						cl = x
+					}
+					if cl == nil {
+						continue
+					}
+					cnt := int64(0) // zero value when the field is not given
+					for _, el := range cl.Elts {
+						kv, ok := el.(*ast.KeyValueExpr)
+						if !ok {
+							continue
+						}
+						if id, ok := kv.Key.(*ast.Ident); ok && info.Uses[id] == cntField {
+							if tv, ok := info.Types[kv.Value]; ok && tv.Value != nil {
+								cnt, _ = constant.Int64Val(tv.Value)
+							}
+						}
+					}
+					n++
+					want := int64(1)
+					if arm.readsRight {
+						want = 2
+					}
+					key := "jp.op:" + nm.Name
+					if cnt == want {
+						rep.Discharge("M-arity", key, prog.Pos(nm.Pos()), fmt.Sprintf("count %d, the arm reads %d operand(s)", cnt, want))
+					} else {
+						rep.Violate(Finding{Rule: "M-arity", Key: key, Pos: prog.Pos(nm.Pos()), Msg: fmt.Sprintf("operator %s is registered with operand count %d but its arm of the evaluator (%s) reads %d operand(s): after the arm the evaluator removes %d values from the stack", nm.Name, cnt, prog.Pos(arm.pos), want, cnt)})
+					}
+				}
+			}
+		}
+	}
+	_ = evalPos
+	rep.Eval(n)
+	if n < 15 {
+		rep.Errorf("M-arity examined %d operators (floor 15)", n)
+	}
 }
